@@ -161,9 +161,16 @@ def _worker_loader(args):
     seed, shard, nstreams, exe, exhaustive = args
     rng = gen.rng_for(seed, PROP, "loader", shard)
     part = report.Part()
+    GROUP = 40      # bounded memory: the hex of a stream is repeated once per partition
+    for g0 in range(0, nstreams, GROUP):
+        _loader_group(part, rng, range(g0, min(nstreams, g0 + GROUP)), exe, exhaustive, shard)
+    return part
+
+
+def _loader_group(part, rng, sis, exe, exhaustive, shard):
     lines = []
     meta = []
-    for si in range(nstreams):
+    for si in sis:
         short = exhaustive and si % 4 == 0
         data, tail = _stream(rng, short=short)
         se = msgoracle.StreamExpect(data)
@@ -189,15 +196,21 @@ def _worker_loader(args):
             orders = "".join(sorted(set(r.msg.order for _, r in se.frames)))
             part.sig("loader", len(se.frames), se.terminal, kind, orders)
             _judge_loader(part, data, tail, kind, chunks, ref, rr, se)
-    return part
 
 
 def _worker_hs(args):
     seed, shard, nstreams, exe, rundir = args
     rng = gen.rng_for(seed, PROP, "hs", shard)
     part = report.Part()
+    GROUP = 25
+    for g0 in range(0, nstreams, GROUP):
+        _hs_group(part, rng, range(g0, min(nstreams, g0 + GROUP)), exe, rundir)
+    return part
+
+
+def _hs_group(part, rng, sis, exe, rundir):
     lines, meta = [], []
-    for si in range(nstreams):
+    for si in sis:
         data, tail = _stream(rng, short=(si % 3 == 0))
         se = msgoracle.StreamExpect(data)
         full = AUTH + data
@@ -265,7 +278,6 @@ def _worker_hs(args):
             part.violation("%s:hs-state-differs" % PROP, "auth/connected %s vs unsplit %s" % ((rr["auth"], rr["connected"]), (ref["auth"], ref["connected"])), wit)
         else:
             part.count("hs-partitions-compared")
-    return part
 
 
 def run(tier, seed, replay=None, scale=1.0):
